@@ -1,9 +1,30 @@
-// Package vatomic stands in for sync/atomic.
+// Package vatomic stands in for sync/atomic in the rewritten packages: every operation is a
+// scheduling point of the controlled scheduler (and the real atomic operation otherwise).
 package vatomic
 
-import "sync/atomic"
+import (
+	"sync/atomic"
 
-func LoadUint64(addr *uint64) uint64                      { return atomic.LoadUint64(addr) }
-func AddUint64(addr *uint64, delta uint64) uint64         { return atomic.AddUint64(addr, delta) }
-func StoreUint64(addr *uint64, v uint64)                  { atomic.StoreUint64(addr, v) }
-func CompareAndSwapUint64(addr *uint64, o, n uint64) bool { return atomic.CompareAndSwapUint64(addr, o, n) }
+	"github.com/MichaelMure/git-bug/verifshim/vsync"
+)
+
+func LoadUint64(addr *uint64) uint64 { vsync.AtomicPoint(); return atomic.LoadUint64(addr) }
+func AddUint64(addr *uint64, delta uint64) uint64 {
+	vsync.AtomicPoint()
+	return atomic.AddUint64(addr, delta)
+}
+func StoreUint64(addr *uint64, v uint64) { vsync.AtomicPoint(); atomic.StoreUint64(addr, v) }
+func CompareAndSwapUint64(addr *uint64, o, n uint64) bool {
+	vsync.AtomicPoint()
+	return atomic.CompareAndSwapUint64(addr, o, n)
+}
+func LoadInt64(addr *int64) int64               { vsync.AtomicPoint(); return atomic.LoadInt64(addr) }
+func AddInt64(addr *int64, delta int64) int64   { vsync.AtomicPoint(); return atomic.AddInt64(addr, delta) }
+func StoreInt64(addr *int64, v int64)           { vsync.AtomicPoint(); atomic.StoreInt64(addr, v) }
+func LoadInt32(addr *int32) int32               { vsync.AtomicPoint(); return atomic.LoadInt32(addr) }
+func AddInt32(addr *int32, delta int32) int32   { vsync.AtomicPoint(); return atomic.AddInt32(addr, delta) }
+func StoreInt32(addr *int32, v int32)           { vsync.AtomicPoint(); atomic.StoreInt32(addr, v) }
+func CompareAndSwapInt32(addr *int32, o, n int32) bool {
+	vsync.AtomicPoint()
+	return atomic.CompareAndSwapInt32(addr, o, n)
+}
